@@ -125,9 +125,9 @@ def _one_path(db, chk, where, TR, run_, calls, ptag):
     if set(by_type) != {"COMMUNICATION", "COMPUTATION"}:
         return
     try:
-        tt = {sv: bool(T.evaluate(dev, lambda leaf, sv=sv: sv if leaf == T.col(TR, "stream") else (_ for _ in ()).throw(T.Unknown(leaf)))) for sv in (-1, 1, 7, 20)}
-        chk.ob("C07.R1-sweep", "device rows = true for positive streams, false for stream -1", tt == {-1: False, 1: True, 7: True, 20: True}, where,
-               found={"predicate": T.show(dev), "table": tt}, accepted={-1: False, 1: True, 7: True, 20: True})
+        tt = {sv: bool(T.evaluate(dev, lambda leaf, sv=sv: sv if leaf == T.col(TR, "stream") else (_ for _ in ()).throw(T.Unknown(leaf)))) for sv in (-1, 0, 1, 7, 20)}
+        chk.ob("C07.R1-sweep", "device rows = every stream except -1 (stream 0 included)", tt == {-1: False, 0: True, 1: True, 7: True, 20: True}, where,
+               found={"predicate": T.show(dev), "table": tt}, accepted={-1: False, 0: True, 1: True, 7: True, 20: True})
     except T.Unknown:
         chk.ob("C07.R1-sweep", "device-row predicate reads only the stream column", False, where, found=T.show(dev), accepted="predicate over stream alone")
     Mcomm, Mcomp = by_type["COMMUNICATION"]["frame"], by_type["COMPUTATION"]["frame"]
